@@ -140,120 +140,192 @@ macro_rules! arithmetic_op {
             match (self, other) {
                 // Double combinations
                 (DataType::Double(a), DataType::Double(b)) => {
-                    Ok(DataType::Double(Float64(a.$trait_method(*b))))
+                    a.$trait_method(*b)
+                        .map(|v| DataType::Double(Float64(v)))
+                        .ok_or(TypeSystemError::ArithmeticOverflow)
                 }
                 (DataType::Double(a), DataType::Float(b)) => {
-                    Ok(DataType::Double(Float64(a.$trait_method(*b))))
+                    a.$trait_method(*b)
+                        .map(|v| DataType::Double(Float64(v)))
+                        .ok_or(TypeSystemError::ArithmeticOverflow)
                 }
                 (DataType::Float(a), DataType::Double(b)) => {
-                    Ok(DataType::Double(Float64(a.$trait_method(*b))))
+                    a.$trait_method(*b)
+                        .map(|v| DataType::Double(Float64(v)))
+                        .ok_or(TypeSystemError::ArithmeticOverflow)
                 }
                 (DataType::Double(a), DataType::BigInt(b)) => {
-                    Ok(DataType::Double(Float64(a.$trait_method(*b))))
+                    a.$trait_method(*b)
+                        .map(|v| DataType::Double(Float64(v)))
+                        .ok_or(TypeSystemError::ArithmeticOverflow)
                 }
                 (DataType::BigInt(a), DataType::Double(b)) => {
-                    Ok(DataType::Double(Float64(a.$trait_method(*b))))
+                    a.$trait_method(*b)
+                        .map(|v| DataType::Double(Float64(v)))
+                        .ok_or(TypeSystemError::ArithmeticOverflow)
                 }
                 (DataType::Double(a), DataType::Int(b)) => {
-                    Ok(DataType::Double(Float64(a.$trait_method(*b))))
+                    a.$trait_method(*b)
+                        .map(|v| DataType::Double(Float64(v)))
+                        .ok_or(TypeSystemError::ArithmeticOverflow)
                 }
                 (DataType::Int(a), DataType::Double(b)) => {
-                    Ok(DataType::Double(Float64(a.$trait_method(*b))))
+                    a.$trait_method(*b)
+                        .map(|v| DataType::Double(Float64(v)))
+                        .ok_or(TypeSystemError::ArithmeticOverflow)
                 }
                 (DataType::Double(a), DataType::BigUInt(b)) => {
-                    Ok(DataType::Double(Float64(a.$trait_method(*b))))
+                    a.$trait_method(*b)
+                        .map(|v| DataType::Double(Float64(v)))
+                        .ok_or(TypeSystemError::ArithmeticOverflow)
                 }
                 (DataType::BigUInt(a), DataType::Double(b)) => {
-                    Ok(DataType::Double(Float64(a.$trait_method(*b))))
+                    a.$trait_method(*b)
+                        .map(|v| DataType::Double(Float64(v)))
+                        .ok_or(TypeSystemError::ArithmeticOverflow)
                 }
                 (DataType::Double(a), DataType::UInt(b)) => {
-                    Ok(DataType::Double(Float64(a.$trait_method(*b))))
+                    a.$trait_method(*b)
+                        .map(|v| DataType::Double(Float64(v)))
+                        .ok_or(TypeSystemError::ArithmeticOverflow)
                 }
                 (DataType::UInt(a), DataType::Double(b)) => {
-                    Ok(DataType::Double(Float64(a.$trait_method(*b))))
+                    a.$trait_method(*b)
+                        .map(|v| DataType::Double(Float64(v)))
+                        .ok_or(TypeSystemError::ArithmeticOverflow)
                 }
 
                 // Float combinations
                 (DataType::Float(a), DataType::Float(b)) => {
-                    Ok(DataType::Double(Float64(a.$trait_method(*b))))
+                    a.$trait_method(*b)
+                        .map(|v| DataType::Double(Float64(v)))
+                        .ok_or(TypeSystemError::ArithmeticOverflow)
                 }
                 (DataType::Float(a), DataType::BigInt(b)) => {
-                    Ok(DataType::Double(Float64(a.$trait_method(*b))))
+                    a.$trait_method(*b)
+                        .map(|v| DataType::Double(Float64(v)))
+                        .ok_or(TypeSystemError::ArithmeticOverflow)
                 }
                 (DataType::BigInt(a), DataType::Float(b)) => {
-                    Ok(DataType::Double(Float64(a.$trait_method(*b))))
+                    a.$trait_method(*b)
+                        .map(|v| DataType::Double(Float64(v)))
+                        .ok_or(TypeSystemError::ArithmeticOverflow)
                 }
                 (DataType::Float(a), DataType::Int(b)) => {
-                    Ok(DataType::Double(Float64(a.$trait_method(*b))))
+                    a.$trait_method(*b)
+                        .map(|v| DataType::Double(Float64(v)))
+                        .ok_or(TypeSystemError::ArithmeticOverflow)
                 }
                 (DataType::Int(a), DataType::Float(b)) => {
-                    Ok(DataType::Double(Float64(a.$trait_method(*b))))
+                    a.$trait_method(*b)
+                        .map(|v| DataType::Double(Float64(v)))
+                        .ok_or(TypeSystemError::ArithmeticOverflow)
                 }
                 (DataType::Float(a), DataType::BigUInt(b)) => {
-                    Ok(DataType::Double(Float64(a.$trait_method(*b))))
+                    a.$trait_method(*b)
+                        .map(|v| DataType::Double(Float64(v)))
+                        .ok_or(TypeSystemError::ArithmeticOverflow)
                 }
                 (DataType::BigUInt(a), DataType::Float(b)) => {
-                    Ok(DataType::Double(Float64(a.$trait_method(*b))))
+                    a.$trait_method(*b)
+                        .map(|v| DataType::Double(Float64(v)))
+                        .ok_or(TypeSystemError::ArithmeticOverflow)
                 }
                 (DataType::Float(a), DataType::UInt(b)) => {
-                    Ok(DataType::Double(Float64(a.$trait_method(*b))))
+                    a.$trait_method(*b)
+                        .map(|v| DataType::Double(Float64(v)))
+                        .ok_or(TypeSystemError::ArithmeticOverflow)
                 }
                 (DataType::UInt(a), DataType::Float(b)) => {
-                    Ok(DataType::Double(Float64(a.$trait_method(*b))))
+                    a.$trait_method(*b)
+                        .map(|v| DataType::Double(Float64(v)))
+                        .ok_or(TypeSystemError::ArithmeticOverflow)
                 }
 
                 // Signed int combinations
                 (DataType::BigInt(a), DataType::BigInt(b)) => {
-                    Ok(DataType::BigInt(Int64(a.$trait_method(*b))))
+                    a.$trait_method(*b)
+                        .map(|v| DataType::BigInt(Int64(v)))
+                        .ok_or(TypeSystemError::ArithmeticOverflow)
                 }
                 (DataType::BigInt(a), DataType::Int(b)) => {
-                    Ok(DataType::BigInt(Int64(a.$trait_method(*b))))
+                    a.$trait_method(*b)
+                        .map(|v| DataType::BigInt(Int64(v)))
+                        .ok_or(TypeSystemError::ArithmeticOverflow)
                 }
                 (DataType::Int(a), DataType::BigInt(b)) => {
-                    Ok(DataType::BigInt(Int64(a.$trait_method(*b))))
+                    a.$trait_method(*b)
+                        .map(|v| DataType::BigInt(Int64(v)))
+                        .ok_or(TypeSystemError::ArithmeticOverflow)
                 }
                 (DataType::Int(a), DataType::Int(b)) => {
-                    Ok(DataType::BigInt(Int64(a.$trait_method(*b))))
+                    a.$trait_method(*b)
+                        .map(|v| DataType::BigInt(Int64(v)))
+                        .ok_or(TypeSystemError::ArithmeticOverflow)
                 }
 
                 // Signed + Unsigned
                 (DataType::BigInt(a), DataType::UInt(b)) => {
-                    Ok(DataType::BigInt(Int64(a.$trait_method(*b))))
+                    a.$trait_method(*b)
+                        .map(|v| DataType::BigInt(Int64(v)))
+                        .ok_or(TypeSystemError::ArithmeticOverflow)
                 }
                 (DataType::UInt(a), DataType::BigInt(b)) => {
-                    Ok(DataType::BigInt(Int64(a.$trait_method(*b))))
+                    a.$trait_method(*b)
+                        .map(|v| DataType::BigInt(Int64(v)))
+                        .ok_or(TypeSystemError::ArithmeticOverflow)
                 }
                 (DataType::BigInt(a), DataType::BigUInt(b)) => {
-                    Ok(DataType::BigInt(Int64(a.$trait_method(*b))))
+                    a.$trait_method(*b)
+                        .map(|v| DataType::BigInt(Int64(v)))
+                        .ok_or(TypeSystemError::ArithmeticOverflow)
                 }
                 (DataType::BigUInt(a), DataType::BigInt(b)) => {
-                    Ok(DataType::BigInt(Int64(a.$trait_method(*b))))
+                    a.$trait_method(*b)
+                        .map(|v| DataType::BigInt(Int64(v)))
+                        .ok_or(TypeSystemError::ArithmeticOverflow)
                 }
                 (DataType::Int(a), DataType::UInt(b)) => {
-                    Ok(DataType::BigInt(Int64(a.$trait_method(*b))))
+                    a.$trait_method(*b)
+                        .map(|v| DataType::BigInt(Int64(v)))
+                        .ok_or(TypeSystemError::ArithmeticOverflow)
                 }
                 (DataType::UInt(a), DataType::Int(b)) => {
-                    Ok(DataType::BigInt(Int64(a.$trait_method(*b))))
+                    a.$trait_method(*b)
+                        .map(|v| DataType::BigInt(Int64(v)))
+                        .ok_or(TypeSystemError::ArithmeticOverflow)
                 }
                 (DataType::Int(a), DataType::BigUInt(b)) => {
-                    Ok(DataType::BigInt(Int64(a.$trait_method(*b))))
+                    a.$trait_method(*b)
+                        .map(|v| DataType::BigInt(Int64(v)))
+                        .ok_or(TypeSystemError::ArithmeticOverflow)
                 }
                 (DataType::BigUInt(a), DataType::Int(b)) => {
-                    Ok(DataType::BigInt(Int64(a.$trait_method(*b))))
+                    a.$trait_method(*b)
+                        .map(|v| DataType::BigInt(Int64(v)))
+                        .ok_or(TypeSystemError::ArithmeticOverflow)
                 }
 
                 // Unsigned combinations
                 (DataType::BigUInt(a), DataType::BigUInt(b)) => {
-                    Ok(DataType::BigUInt(UInt64(a.$trait_method(*b))))
+                    a.$trait_method(*b)
+                        .map(|v| DataType::BigUInt(UInt64(v)))
+                        .ok_or(TypeSystemError::ArithmeticOverflow)
                 }
                 (DataType::BigUInt(a), DataType::UInt(b)) => {
-                    Ok(DataType::BigUInt(UInt64(a.$trait_method(*b))))
+                    a.$trait_method(*b)
+                        .map(|v| DataType::BigUInt(UInt64(v)))
+                        .ok_or(TypeSystemError::ArithmeticOverflow)
                 }
                 (DataType::UInt(a), DataType::BigUInt(b)) => {
-                    Ok(DataType::BigUInt(UInt64(a.$trait_method(*b))))
+                    a.$trait_method(*b)
+                        .map(|v| DataType::BigUInt(UInt64(v)))
+                        .ok_or(TypeSystemError::ArithmeticOverflow)
                 }
                 (DataType::UInt(a), DataType::UInt(b)) => {
-                    Ok(DataType::BigUInt(UInt64(a.$trait_method(*b))))
+                    a.$trait_method(*b)
+                        .map(|v| DataType::BigUInt(UInt64(v)))
+                        .ok_or(TypeSystemError::ArithmeticOverflow)
                 }
 
                 // Non-numeric
